@@ -198,9 +198,55 @@ def containers_and_files_unit(rec, tier):
                     rec.violation('C02|%s|%s|%d:%s|%s|refused-record-leaves-partial-line' % (tname, rec_kind, i, names[i], f),
                                   'after a refused record the file holds %r instead of the two complete records' % lines[:3],
                                   {'file_route': tname, 'record': rec_kind, 'field': i})
+    # (c) the file route with the tail of the record absent: fields 0..j present, the rest absent, for every j;
+    # names in two spellings (full width, and ending in a blank - legal names, e.g. MULgraph column names and the
+    # left-justified MINC 'where' field); written with write_values() and read back with read_values()
+    for tname, parser in tables().items():
+        for rec_kind, (names, fmts) in parser.specification.items():
+            for spelling in ('full', 'trailing-blank'):
+                for j in range(len(fmts)):
+                    if split_fmt(fmts[j])[0] == 'x':
+                        continue
+                    vals = []
+                    for k, f in enumerate(fmts):
+                        typ, w, prec, left = split_fmt(f)
+                        v = sentinel(typ, w, k) if k <= j else None
+                        if typ == 's' and v is not None and spelling == 'trailing-blank' and w >= 2:
+                            v = v[:w - 1] + ' '
+                        vals.append(v)
+                    parser.file = io.StringIO()
+                    n += 1
+                    try:
+                        parser.write_values(vals, rec_kind)
+                        parser.file.seek(0)
+                        back = parser.read_values(rec_kind)
+                    except core.CaseTimeout:
+                        raise
+                    except Exception as ex:
+                        rec.violation('C02|%s|%s|%d:%s|%s|file-route-raises|tail-absent' % (tname, rec_kind, j, names[j] if j < len(names) else '?', fmts[j]),
+                                      repr(ex), {'file_route': tname, 'record': rec_kind, 'field': j})
+                        continue
+                    for k, f in enumerate(fmts):
+                        tk, wk, pk, lk = split_fmt(f)
+                        if tk == 'x':
+                            continue
+                        got = back[k] if k < len(back) else None
+                        if vals[k] is None:
+                            ok = got is None or (isinstance(got, str) and got.strip() == '')
+                        elif tk == 's':
+                            ok = isinstance(got, str) and got.strip(' ') == vals[k].strip(' ')
+                        else:
+                            ok = got == expected_sentinel(tk, f, vals[k])
+                        if not ok:
+                            rec.violation('C02|%s|%s|%d:%s|%s|file-route-value-lost|tail-absent,last-present=%s,name-%s'
+                                          % (tname, rec_kind, k, names[k] if k < len(names) else '?', f,
+                                             'this' if k == j else 'other', spelling),
+                                          'record %r written to a file with fields after %d absent: field %d reads back %r'
+                                          % (vals, j, k, got), {'file_route': tname, 'record': rec_kind, 'field': j})
+                            break
     rec.bulk(n, [('containers-and-files', n)], outcome='containers-and-files')
     rec.count('container_and_file_cases', n)
-    rec.sample({'containers_and_files': 'all-real records written from list / tuple / ndarray; a refused record between two good ones in one file', 'cases': n})
+    rec.sample({'containers_and_files': 'all-real records written from list / tuple / ndarray; a refused record between two good ones in one file; records with the tail absent through write_values / read_values', 'cases': n})
 
 
 def two_parsers_unit(rec):
@@ -335,6 +381,47 @@ def eval_dict_case(parser, tname, rec_kind, i, kind):
             got = back.get(n)
             if not (got is None or (isinstance(got, str) and got.strip() == '')):
                 out.append((base + '|absent-not-absent', 'absent field %r reads back %r' % (n, got)))
+    return out
+
+
+def eval_full_dict_case(parser, tname, rec_kind):
+    """A dictionary holding a value for EVERY name of the record kind is written and read back: every name
+    whose value was written must be in the dictionary read back, with its value."""
+    import io
+    names, fmts = parser.specification[rec_kind]
+    var = {}
+    for j, n in enumerate(names):
+        if j < len(fmts):
+            typ, w, prec, left = split_fmt(fmts[j])
+            if typ != 'x':
+                var[n] = sentinel(typ, w, j)
+        elif n:
+            var[n] = 3.5
+    base = 'C02|%s|%s|all-names|dict-path' % (tname, rec_kind)
+    parser.file = io.StringIO()
+    try:
+        parser.write_value_line(var, rec_kind)
+        parser.file.seek(0)
+        back = {}
+        parser.read_value_line(back, rec_kind)
+    except core.CaseTimeout:
+        raise
+    except Exception as e:
+        return [(base + '|raises', 'write_value_line/read_value_line raised %r for %r' % (e, var))]
+    out = []
+    for j, n in enumerate(names):
+        if n not in var:
+            continue
+        if n not in back:
+            out.append((base + '|written-value-dropped', 'name %r (position %d of %d names, %d formats) written as %r is missing '
+                        'from the dictionary read back' % (n, j, len(names), len(fmts), var[n])))
+            break
+        if j < len(fmts):
+            tj = fmts[j][-1]
+            want = expected_sentinel(tj, fmts[j], var[n]) if tj in 'efg' else var[n]
+            if back[n] != want:
+                out.append((base + '|value-differs', 'name %r written as %r reads back %r' % (n, var[n], back[n])))
+                break
     return out
 
 
@@ -484,6 +571,12 @@ def run_unit(unit, tier, rec):
                         n += 1
                         for sig, what in viol:
                             rec.violation(sig, what, {'table': tname, 'record': rec_kind, 'field': i, 'dict': kind})
+                # every NAME of the record kind present at once: each must come back (a name without a
+                # format of its own would be dropped silently by the writer)
+                for sig, what in eval_full_dict_case(parser, tname, rec_kind):
+                    rec.violation(sig, what, {'table': tname, 'record': rec_kind, 'full_dict': True})
+                rec.case((tname, rec_kind, 'dict', 'full'), nontrivial=True, outcome='dict-full')
+                n += 1
         rec.count('dict_path_cases', n)
         rec.sample({'dict_path': 'records written from a dictionary with one field zero / absent', 'cases': n})
         return
@@ -545,6 +638,8 @@ def replay(case):
         two_parsers_unit(r)
         return [(sig, e['what']) for sig, e in r.viol.items()]
     parser = tables()[case['table']]
+    if case.get('full_dict'):
+        return eval_full_dict_case(parser, case['table'], case['record'])
     if 'dict' in case:
         return eval_dict_case(parser, case['table'], case['record'], case['field'], case['dict'])
     names, fmts = parser.specification[case['record']]
